@@ -108,3 +108,87 @@ theorem handover_delivery_accepted (env : Env) (c : Call) (ctx : Ctx) (tok nb : 
       exact ⟨_, _, rfl, rfl⟩
 
 end Esdt
+
+namespace Esdt
+
+/-! ### "a refund is never rejected" (ESDTTransfer) -/
+
+/-- `saveESDTData` succeeds when the entry carries a value and its encoding fits -/
+theorem saveESDTData_accepts (a k : Bytes) (t : Token) (v : Int) (ctx : Ctx) (hnf : ctx.failAt = none)
+    (hv : t.value = some v) (hlen : (encToken t).length < two63) :
+    ∃ ctx', saveESDTData a t k ctx = .ok ((), ctx') ∧ ctx'.failAt = none ∧
+      ctx'.accts = ctx.accts.write a k (storedForm t) := by
+  unfold saveESDTData storedForm
+  by_cases hz : v = 0 ∧ allZero t.properties = true
+  · have hz' : t.value = some 0 ∧ allZero t.properties = true := ⟨by rw [hv, hz.1], hz.2⟩
+    rw [if_pos hz']
+    simp only [deref, hv, Bind.bind, M.bind, Pure.pure, M.pure, hz, and_self, if_true, Esdt.writeKey, Esdt.tick, hnf,
+      List.length_cons, reduceCtorEq, if_false]
+    exact ⟨_, rfl, rfl, rfl⟩
+  · have hz' : ¬ (t.value = some 0 ∧ allZero t.properties = true) := by
+      rintro ⟨h1, h2⟩; rw [hv] at h1; cases h1; exact hz ⟨rfl, h2⟩
+    rw [if_neg hz']
+    simp only [deref, hv, Bind.bind, M.bind, Pure.pure, M.pure, hz, if_false, marshalToken, Esdt.writeKey, Esdt.tick, hnf,
+      hlen, if_true, List.length_cons, reduceCtorEq]
+    exact ⟨_, rfl, rfl, rfl⟩
+
+
+/-- reading an entry through `getESDTDataFromKey` succeeds whenever the slot is empty or decodes -/
+theorem getESDTDataFromKey_accepts (a k : Bytes) (t : Token) (ctx : Ctx) (hnf : ctx.failAt = none)
+    (ht : tokenOf (ctx.accts.read a k) = some t) :
+    ∃ ctx', getESDTDataFromKey a k ctx = .ok (t, ctx') ∧ ctx'.failAt = none ∧ ctx'.accts = ctx.accts := by
+  unfold getESDTDataFromKey
+  unfold tokenOf at ht
+  have hread : (ctx.accts.get a).store.get k = ctx.accts.read a k := rfl
+  by_cases hraw : ctx.accts.read a k = []
+  · rw [if_pos hraw] at ht
+    cases ht
+    simp only [Esdt.readKey, Bind.bind, M.bind, hread, hraw, if_true, Pure.pure, M.pure]
+    exact ⟨_, rfl, hnf, rfl⟩
+  · rw [if_neg hraw] at ht
+    simp only [Esdt.readKey, Bind.bind, M.bind, hread, hraw, if_false, unmarshalToken, Esdt.tick, hnf, ht, Pure.pure,
+      M.pure, List.length_cons, reduceCtorEq]
+    exact ⟨_, rfl, rfl, rfl⟩
+
+/-- the credit of a return-after-error call succeeds on every well-formed fungible entry: no gate is consulted -/
+theorem addToESDTBalance_rae_accepts (a k : Bytes) (d : Int) (ctx : Ctx) (hnf : ctx.failAt = none)
+    (t : Token) (v : Int) (ht : tokenOf (ctx.accts.read a k) = some t) (hty : t.type = 0)
+    (hv : t.value = some v) (h0 : 0 ≤ v + d)
+    (hlen : (encToken { t with value := some (v + d) }).length < two63) :
+    ∃ ctx', addToESDTBalance a k d true ctx = .ok ((), ctx') ∧ ctx'.failAt = none ∧
+      ctx'.accts = ctx.accts.write a k (storedForm { t with value := some (v + d) }) := by
+  obtain ⟨c1, h1, hnf1, ha1⟩ := getESDTDataFromKey_accepts a k t ctx hnf ht
+  obtain ⟨c2, h2, hnf2, ha2⟩ := saveESDTData_accepts a k { t with value := some (v + d) } (v + d) c1 hnf1 rfl hlen
+  have hneg : ¬ (v + d < 0) := by omega
+  refine ⟨c2, ?_, hnf2, by rw [ha2, ha1]⟩
+  unfold addToESDTBalance checkFrozeAndPause
+  simp only [Bind.bind, M.bind, h1, Esdt.guardE, hty, ne_eq, not_true_eq_false, decide_false, Bool.false_eq_true, if_false,
+    if_true, Pure.pure, M.pure, deref, hv, hneg]
+  rw [hty] at h2
+  exact h2
+
+/-- the refund of an ESDTTransfer (callback call type, return-after-error flag, transfer arguments only, executed on the
+    origin shard) succeeds on every state where the origin's entry is a well-formed fungible entry -/
+theorem esdtTransfer_refund_accepted (env : Env) (c : Call) (ctx : Ctx) (tok amt : Bytes)
+    (hct : c.callType = 2) (hrae : c.rae = true) (hargs : c.args = [tok, amt]) (hamt : beNat amt ≠ 0)
+    (hval : c.callValue = 0)
+    (hsnd : present env.nshards env.self c.caller = false) (hdst : present env.nshards env.self c.rcv = true)
+    (hmeta : shardOf env.nshards c.rcv ≠ metaShard) (hnf : ctx.failAt = none)
+    (t : Token) (v : Int) (ht : tokenOf (ctx.accts.read c.rcv (esdtKeyPrefix ++ tok)) = some t) (hty : t.type = 0)
+    (hv : t.value = some v) (hv0 : 0 ≤ v)
+    (hlen : (encToken { t with value := some (v + (beNat amt : Int)) }).length < two63) :
+    ∃ out ctx', esdtTransfer env c ctx = .ok (out, ctx') ∧ out.rc = 0 ∧
+      ctx'.accts = ctx.accts.write c.rcv (esdtKeyPrefix ++ tok) (storedForm { t with value := some (v + (beNat amt : Int)) }) := by
+  have hmv : mustVerifyPayable c 2 = false := by simp [mustVerifyPayable, hct]
+  have hsc : (isSmartContractAddress c.rcv && decide (c.args.length > 2)) = false := by simp [hargs]
+  obtain ⟨c1, h1, _, ha1⟩ := addToESDTBalance_rae_accepts c.rcv (esdtKeyPrefix ++ tok) (beNat amt) ctx hnf t v ht hty hv
+    (by omega) hlen
+  unfold esdtTransfer checkBasic
+  simp only [hsnd, hdst, hval, hargs, hmv, hsc, Esdt.guardE, Esdt.argAt, deref, Bind.bind, M.bind, Pure.pure, M.pure,
+    List.length_cons, List.length_nil, List.getElem?_cons_zero, List.getElem?_cons_succ, ne_eq, not_true_eq_false,
+    decide_false, Bool.false_eq_true, if_false, if_true, hmeta, hamt, verifyPayableIf, Nat.reduceAdd, Nat.reduceLT,
+    reduceCtorEq, decide_true, hrae, h1, Bool.and_false, gt_iff_lt, Nat.lt_irrefl, hct, Bool.not_false, and_self]
+  exact ⟨_, _, rfl, rfl, ha1⟩
+
+
+end Esdt
